@@ -108,7 +108,9 @@ Admissible(f, rec) ==
 J02(rec, f, o) ==
   IF ~("alt" \in DOMAIN rec) \/ ~("altInfo" \in DOMAIN rec) \/ ~("obsAlt" \in DOMAIN rec) THEN TRUE
   ELSE LET fa == Final(rec, rec.alt) IN
-       (Dom(f, o) /\ ~fa.grey /\ ~Crashed(rec.obsAlt) /\ Admissible(f, rec)) =>
+       (/\ Dom(f, o) /\ ~fa.grey /\ ~Crashed(rec.obsAlt) /\ Admissible(f, rec)
+        \* the occurrence must be one: the token is parsed as an option in both vectors (not passed through)
+        /\ ~f.hmod /\ ~fa.hmod /\ f.role[rec.altInfo.pos] = "option" /\ fa.role[rec.altInfo.pos] = "option") =>
            (/\ Outcome(o) = Outcome(rec.obsAlt)
             /\ SpecOutcomeEq(f, o) /\ SpecOutcomeEq(fa, rec.obsAlt))
 
@@ -121,20 +123,38 @@ FullEq(f, o) ==
                 /\ SpecOk(f) => (ValuesEq(f, o) /\ PosEq(f, o) /\ o.retargs = f.retargs
                                  /\ \A i \in 1..UserN(f) : o.isSet[i] = f.isSet[i]))
 
+B(x) == IF x THEN 1 ELSE 0
+InDom02(rec, f, o) ==
+  /\ "alt" \in DOMAIN rec /\ "altInfo" \in DOMAIN rec /\ "obsAlt" \in DOMAIN rec
+  /\ LET fa == Final(rec, rec.alt) IN
+     /\ Dom(f, o) /\ ~fa.grey /\ ~Crashed(rec.obsAlt) /\ Admissible(f, rec)
+     /\ ~f.hmod /\ ~fa.hmod /\ f.role[rec.altInfo.pos] = "option" /\ fa.role[rec.altInfo.pos] = "option"
+
 JudgeWith(rec, f, o) ==
      [C01 |-> J01(f, o), C02 |-> J02(rec, f, o), C03 |-> J03(f, o), C04 |-> J04(f, o, rec), C06 |-> J06(f, o), C07 |-> J07(f, o),
       C08 |-> J08(f, o), C09 |-> J09(f, o), C10 |-> J10(f, o), DRIFT |-> FullEq(f, o),
-      grey |-> f.grey, specOk |-> SpecOk(f), steps |-> f.steps]
+      \* how often each property's antecedent was met (non-vacuity figures for the evidence)
+      grey |-> B(f.grey), ok |-> B(SpecOk(f)), steps |-> f.steps,
+      d01 |-> B(Dom(f, o) /\ SpecOk(f) /\ f.occ # <<>>),
+      d02 |-> B(InDom02(rec, f, o)),
+      d03 |-> B(Dom(f, o) /\ SpecOk(f) /\ f.retargs # <<>>),
+      d04 |-> B(~SpecOk(f)),
+      d06 |-> B(Dom(f, o) /\ f.err.t = "ErrRequired"),
+      d07 |-> B(Dom(f, o) /\ (f.err.t = "ErrUnknownFlag" \/ Unks(f.events) # <<>>)),
+      d08 |-> B(Dom(f, o) /\ Len(f.chain) > 1),
+      d09 |-> B(Dom(f, o) /\ Execs(f.events) # <<>>),
+      d10 |-> B(Dom(f, o) /\ SpecOk(f) /\ InSeq(f.role, "positional"))]
 Judge(rec) == JudgeWith(rec, TLCEval(Final(rec, rec.argv)), rec.obs)
 
-Init == l = 1 /\ bad = [p \in Props |-> {}] /\ stat = [grey |-> 0, ok |-> 0, steps |-> 0] /\ j = <<>>
+StatKeys == {"grey", "ok", "steps", "d01", "d02", "d03", "d04", "d06", "d07", "d08", "d09", "d10"}
+Init == l = 1 /\ bad = [p \in Props |-> {}] /\ stat = [k \in StatKeys |-> 0] /\ j = <<>>
 
 Next ==
   /\ l <= Len(TraceRecs)
   /\ l' = l + 1
   /\ j' = Judge(TraceRecs[l])          \* assigned once, so evaluated once (LET bodies are re-evaluated per use in actions)
   /\ bad' = [p \in Props |-> IF j'[p] THEN bad[p] ELSE bad[p] \cup {l}]
-  /\ stat' = [grey |-> stat.grey + (IF j'.grey THEN 1 ELSE 0), ok |-> stat.ok + (IF j'.specOk THEN 1 ELSE 0), steps |-> stat.steps + j'.steps]
+  /\ stat' = [k \in StatKeys |-> stat[k] + j'[k]]
   /\ TLCSet(1, bad') /\ TLCSet(2, stat') /\ TLCSet(3, l)
 
 Spec == Init /\ [][Next]_<<l, bad, stat, j>>
